@@ -743,3 +743,21 @@ Proof.
   destruct (run (enough_fuel sy) sy pp (put (v, norm x p) (cast x a) s) rs) as [s2 l]. cbn [fst snd] in *.
   split; [now rewrite A|exact T].
 Qed.
+
+(** * The statement of failure atomicity in one piece *)
+
+Theorem failure_atomic_top : forall sy pp inp, ranked sy = true -> 1 <= max_loops sy ->
+  forall s v p e, Top sy pp inp s ->
+  snd (calc (enough_fuel sy) sy pp s v p) = Err e ->
+  let s' := fst (calc (enough_fuel sy) sy pp s v p) in
+  stack s' = [] /\ invalid s' = []
+  /\ Top sy pp inp s'
+  /\ (forall k a, lookup k (cache s) = Some a -> lookup k (cache s') = Some a)
+  /\ (forall k, v <= fst k -> lookup k (cache s') = lookup k (cache s)).
+Proof.
+  intros sy pp inp Hr Hl s v p e HT He s'.
+  destruct (calc_top_grows sy pp inp Hr Hl s v p HT) as [HT' Hg].
+  pose proof (calc_top_failed sy pp inp Hr Hl s v p e HT He) as Hf.
+  destruct HT' as [(J1 & J2 & J3) Hs'] eqn:E. clear E.
+  repeat split; auto.
+Qed.
